@@ -1,7 +1,7 @@
 (* Lines/Text.v — the character-level vocabulary of the line/file model
    (C11, C16).  A line is the list of its code points (type N), WITHOUT the
-   trailing newline; a file is the list of its lines, i.e. what
-   `contents.splitlines()` returns in node_visitor.BaseNodeVisitor._lines
+   trailing newline; a file is the list of its lines as the tokenizer numbers
+   them, i.e. what node_visitor._split_lines returns for BaseNodeVisitor._lines
    (the "\n" that _lines appends is removed again by every `.strip()`, is
    never part of a searched pattern, and is not a '#').
 
